@@ -2,6 +2,7 @@ import PsycheModel.StmtCtx
 import PsycheModel.Lemmas.GuessRole
 import PsycheModel.Lemmas.Stmt
 import PsycheModel.Lemmas.Init
+import PsycheModel.Lemmas.TagBody
 import PsycheModel.Lemmas.Expr
 import PsycheModel.ExprReal
 /-!
@@ -221,6 +222,160 @@ example : ok (.label 7 (.for_ (.decl 0) (some 1) none (.block [.case 2 (.itel 3 
 end PsycheModel.Stmt
 
 /-! ## Expressions: every derivable expression is accepted (C06's all-layers theorem, read as acceptance) -/
+/-! ## Initializers (6.7.9): the model of `parseInitializer` and the functions under it (`PsycheModel/Init.lean`) -/
+namespace PsycheModel.Init
+
+/-- **Every derivable initializer is accepted, with its own tree**: braces to any depth, designations of any length, a trailing comma
+or none, whatever follows. -/
+theorem initializer_parse_pp (i : I) (rest : List Tok) (hok : ok true i = true) :
+    ∃ f, init f (pp i ++ rest) = some (i, rest) := rt i rest hok
+
+/-- **… and nothing else is** (soundness, for EVERY token string): an answer is a derivable initializer and the tokens consumed are its
+printing - `{ }`, `{ , }`, `{ 1, , }`, `.m 1`, `[2] 3`, `. = 1` are all refused. -/
+theorem initializer_parse_sound (f : Nat) (ts : List Tok) (i : I) (r : List Tok) (h : init f ts = some (i, r)) :
+    ts = pp i ++ r ∧ ok true i = true := (snd_all f).init ts i r h
+
+/-- the fuel only bounds the recursion: `3 · length + 1` reproduces whatever any fuel yields -/
+theorem init_fuel_bound (ts : List Tok) {f : Nat} {x : I × List Tok} (h : init f ts = some x) :
+    init (3 * ts.length + 1) ts = some x := (fuel_bound ts.length).1 ts (Nat.le_refl _) f x h
+
+theorem init_fuel_irrelevant {ts : List Tok} {f g : Nat} {x y : I × List Tok} (hx : init f ts = some x) (hy : init g ts = some y) : x = y := by
+  have h1 := init_fuel_bound ts hx
+  have h2 := init_fuel_bound ts hy
+  rw [h1] at h2; exact Option.some.inj h2
+
+/-- no fuel in the statement: the driver's parser (fuel `3 · length + 1`) inverts the printing -/
+theorem initializer_parse_pp_fuel (i : I) (rest : List Tok) (hok : ok true i = true) :
+    init (3 * (pp i ++ rest).length + 1) (pp i ++ rest) = some (i, rest) := by
+  obtain ⟨f, hf⟩ := initializer_parse_pp i rest hok
+  exact init_fuel_bound _ hf
+
+/-- printing is injective on derivable initializers -/
+theorem init_pp_injective (a b : I) (ha : ok true a = true) (hb : ok true b = true) (h : pp a = pp b) : a = b := by
+  have h1 := initializer_parse_pp_fuel a [] ha
+  have h2 := initializer_parse_pp_fuel b [] hb
+  rw [h] at h1
+  rw [h1] at h2
+  exact (Prod.mk.inj (Option.some.inj h2)).1
+
+/-- every answer consumes at least one token -/
+theorem init_consumes_token {f : Nat} {ts : List Tok} {i : I} {r : List Tok} (h : init f ts = some (i, r)) : r.length < ts.length :=
+  init_consumes h
+
+/-- non-vacuity: `{ .a = 1, [2] = { 3 }, 4, }` -/
+example :
+    let i : I := .brace [.desig [.field 0] (.expr 1), .desig [.index 2] (.brace [.expr 3] false), .expr 4] true
+    ok true i = true ∧
+    pp i = [.lb, .dot, .id 0, .eq, .e 1, .comma, .lk, .e 2, .rk, .eq, .lb, .e 3, .rb, .comma, .e 4, .comma, .rb] ∧
+    (init (3 * (pp i).length + 1) (pp i)).map (fun p => I.beq p.1 i && p.2.isEmpty) = some true := by
+  intro i
+  exact ⟨rfl, rfl, by decide⟩
+
+/-- the refused shapes -/
+example : init 50 [.lb, .rb] = none ∧ init 50 [.lb, .comma, .rb] = none ∧ init 50 [.lb, .e 1, .comma, .comma, .rb] = none ∧
+    init 50 [.lb, .dot, .id 0, .e 1, .rb] = none ∧ init 50 [.lb, .dot, .eq, .e 1, .rb] = none := by decide
+
+end PsycheModel.Init
+
+/-! ## struct / union / enum specifiers (6.7.2.1, 6.7.2.2): the model of `parseTagTypeSpecifier_AtFirst` and the loops under it
+(`PsycheModel/TagBody.lean`) -/
+namespace PsycheModel.TagBody
+
+theorem ppM_length_pos (m : M) : 0 < (ppM m).length := by
+  cases m with
+  | incomplete ss => simp [ppM]
+  | field ss ds =>
+    have : 0 < (ppMDs ds).length := by
+      match ds with
+      | [] => simp [ppMDs]
+      | [d] => simp [ppMDs]
+      | d :: d' :: r => simp [ppMDs]; omega
+    simp [ppM]; omega
+
+theorem ppMs_length (ms : List M) : ms.length ≤ (ppMs ms).length := by
+  induction ms with
+  | nil => simp
+  | cons m ms ih => have := ppM_length_pos m; simp [ppMs]; omega
+
+theorem ok_acc (t : T) (h : ok t = true) : acc t = true := by
+  cases t <;> simp_all [ok, acc]
+
+/-- **Every specifier C11 derives is accepted, with its own tree** (any number of members, declarators, bit-fields, enumerators; with
+or without a tag; a trailing comma or none) - the fuel being the number of tokens, as in the driver. -/
+theorem tag_parse_pp (t : T) (rest : List Tok) (hok : ok t = true)
+    (hrest : (∃ tg, t = .suRef tg ∨ t = .enRef tg) → NoLb rest) :
+    tag (pp t ++ rest).length (pp t ++ rest) = some (t, rest) := by
+  refine TagBody.tag_pp t rest _ (ok_acc t hok) ?_ hrest
+  intro tg ms e
+  subst e
+  have := ppMs_length ms
+  simp [pp]; omega
+
+/-- **Whatever is accepted is a printing** (soundness, for EVERY token string and fuel): the tokens consumed are the printing of the
+tree, every member has a specifier and every field a declarator. -/
+theorem tag_parse_sound (f : Nat) (ts : List Tok) (t : T) (r : List Tok) (h : tag f ts = some (t, r)) :
+    ts = pp t ++ r ∧ acc t = true := TagBody.tag_sound f ts t r h
+
+theorem ref_rest_noLb (f : Nat) (tg : Nat) (r : List Tok) :
+    (tag f (.ksu :: .id tg :: r) = some (.suRef tg, r) → NoLb r) ∧ (tag f (.kenum :: .id tg :: r) = some (.enRef tg, r) → NoLb r) := by
+  match r with
+  | [] => exact ⟨fun _ => trivial, fun _ => trivial⟩
+  | .lb :: r' =>
+    constructor
+    · intro h; exfalso; simp only [tag] at h; split at h <;> simp_all
+    · intro h; exfalso; simp only [tag] at h; split at h <;> simp_all
+  | .ksu :: _ | .kenum :: _ | .id _ :: _ | .sp _ :: _ | .dcl _ :: _ | .e _ :: _ | .rb :: _
+  | .semi :: _ | .comma :: _ | .colon :: _ | .eq :: _ => exact ⟨fun _ => trivial, fun _ => trivial⟩
+
+/-- the fuel (one unit per member) only bounds the loop: the number of tokens reproduces whatever any fuel yields -/
+theorem tag_fuel_free (f : Nat) (ts : List Tok) (x : T × List Tok) (h : tag f ts = some x) : tag ts.length ts = some x := by
+  obtain ⟨t, r⟩ := x
+  obtain ⟨h1, h2⟩ := TagBody.tag_sound f ts t r h
+  have hr : (∃ tg, t = .suRef tg ∨ t = .enRef tg) → NoLb r := by
+    rintro ⟨tg, rfl | rfl⟩
+    · subst h1; exact (ref_rest_noLb f tg r).1 (by simpa [pp] using h)
+    · subst h1; exact (ref_rest_noLb f tg r).2 (by simpa [pp] using h)
+  rw [h1]
+  refine TagBody.tag_pp t r _ h2 ?_ hr
+  intro tg ms e
+  subst e
+  have := ppMs_length ms
+  simp [pp]; omega
+
+/-- **The parser accepts a little more than C11 derives** (witnesses; counted on the real parser by the check): an empty enumerator
+list and an empty member list (the latter a GNU extension) - without a diagnostic.  Enumerators without a comma between them were a
+third case until the parser was repaired (`enum e { A B }`); they are refused now, by the model as by the parser. -/
+theorem accepts_more_than_C11 :
+    (tag 9 [.kenum, .id 0, .lb, .rb] = some (.en (some 0) [], []) ∧ ok (.en (some 0) []) = false) ∧
+    (tag 9 [.ksu, .id 0, .lb, .rb] = some (.su (some 0) [], []) ∧ ok (.su (some 0) []) = false) ∧
+    tag 9 [.kenum, .id 0, .lb, .id 1, .id 2, .rb] = none ∧ tag 9 [.kenum, .lb, .id 1, .eq, .e 0, .id 2, .comma, .rb] = none := by decide
+
+/-- … and that is all: an accepted specifier with a non-empty body is derivable -/
+theorem accepted_nonempty_is_C11 (f : Nat) (ts : List Tok) (t : T) (r : List Tok) (h : tag f ts = some (t, r))
+    (hne : ∀ tg, t ≠ .su tg [] ∧ t ≠ .en tg []) : ok t = true := by
+  have ha := (TagBody.tag_sound f ts t r h).2
+  cases t with
+  | suRef _ => rfl
+  | enRef _ => rfl
+  | su tg ms =>
+    cases ms with
+    | nil => exact absurd rfl (hne tg).1
+    | cons m ms' => simpa [ok, acc] using ha
+  | en tg es =>
+    cases es with
+    | nil => exact absurd rfl (hne tg).2
+    | cons x xs => simpa [ok, acc] using ha
+
+/-- non-vacuity: `struct s { int x, *p : 3; unsigned : 2; int ; }` and `enum e { A, B = 1, C, }` -/
+example :
+    let t : T := .su (some 0) [.field [1] [.plain 2, .bitfield (some 3) 4], .field [5] [.bitfield none 6], .incomplete [7]]
+    let u : T := .en (some 0) [⟨1, none, true⟩, ⟨2, some 3, true⟩, ⟨4, none, true⟩]
+    ok t = true ∧ ok u = true ∧ tag (pp t).length (pp t) = some (t, []) ∧ tag (pp u).length (pp u) = some (u, []) := by
+  intro t u
+  exact ⟨rfl, rfl, by decide, by decide⟩
+
+end PsycheModel.TagBody
+
 namespace PsycheModel.Expr
 /-- with the parser's own tables, every expression tree the C11 grammar derives is accepted by the model of `parseExpression` -/
 theorem valid_expression_accepted (e : E) (hok : ok realT e = true) : ∃ fuel, (nary realT fuel 1 (pp realT e)).isSome = true := by
